@@ -357,6 +357,13 @@ def is_null_on_null_row(expr: ColExpr) -> bool:
     if isinstance(expr, Col):
         if isinstance(expr._ast, verbs.Mutate) and expr._uuid in expr._ast.uuids:
             return is_null_on_null_row(expr._ast.values[expr._ast.uuids.index(expr._uuid)])
+        if isinstance(expr._ast, verbs.Alias) and expr._ast.uuid_map is not None:
+            # An `alias` only permits a subquery, it does not force one: look at the
+            # column of the aliased table.
+            old_uuid = next((old for old, new in expr._ast.uuid_map.items() if new == expr._uuid), None)
+            old_col = Cache.from_ast(expr._ast.child).cols.get(old_uuid)
+            if old_col is not None:
+                return is_null_on_null_row(old_col)
         return True
     if isinstance(expr, LiteralCol):
         return expr.val is None
